@@ -16,6 +16,7 @@ RULE = ("random histories of 6-25 public query/conversion calls over a pool of l
         "with the result of the same call on freshly rebuilt equal objects, and the structure of every operand with its "
         "structure before the call. A divergence is certified by the two runs of the real code. Non-trivial: history "
         "with >=8 calls touching >=3 kinds of objects.")
+EXPLANATION = "History independence is decided by running every call of a random history twice on the real code - on the live objects and on freshly rebuilt equal objects - and comparing canonical results and operand snapshots; a divergence is certified by the two runs themselves. The value-semantics of the individual operations is what C01-C18 prove; no separate Lean theorem about the library's caches is claimed in this round."
 THEOREMS = []
 REGEX_TEXTS = ["a", "b", "a b", "a*", "a|b", "(a|b)*", "a b*", "$", "a (b|a)"]
 WORDS = [[], ["a"], ["b"], ["a", "b"], ["a", "a"], ["b", "a"], ["a", "b", "b"]]
